@@ -525,7 +525,9 @@ func (o *c15Obs) After(w *wWorld, st *wStep) *kit.Viol {
 			}
 			_, origAtt := o.preAtt[cc.origSess][r]
 			_, calleeAtt := o.preAtt[cc.calleeSess][r]
-			if (gone(cc.origSess) && origAtt) || (gone(cc.calleeSess) && calleeAtt && !cc.calleeGone) {
+			// a party's user leaving the topic for good ends the call whether or not the party's session is attached
+			userGone := st.Op.K == "leave" && st.Op.F && st.Route == r && st.ok() && (st.User == cc.origUser || (st.User == cc.calleeUser && cc.calleeSess >= 0))
+			if userGone || (gone(cc.origSess) && origAtt) || (gone(cc.calleeSess) && calleeAtt && !cc.calleeGone) {
 				expectEnd[r] = "disconnected"
 			} else if st.Op.K != "leave" && cc.calleeSess >= 0 && st.Op.S == cc.calleeSess && !cc.calleeGone {
 				// The callee accepted from a session which is not attached to the topic (the server routes
